@@ -36,9 +36,35 @@ fn fcs_values(seed: u64) -> Vec<u64> {
     v
 }
 
-/// header variant h: 0..=255 window descriptors, then single-segment content sizes
+/// window descriptors and content sizes for headers that carry BOTH fields (legal, rare: the
+/// reference compressor switches to single-segment when the content is smaller than the window)
+const BOTH_WD: [u8; 8] = [0x00, 0x07, 0x50, 0x88, 0x89, 0x90, 0xA0, 0xF8];
+const BOTH_FCS: [u64; 8] = [256, 1000, 65_791, 65_792, 1 << 20, (1 << 27) - 1, 1 << 27, 1 << 33];
+const N_BOTH: u64 = 64;
+
+/// header variant h: 0..=255 window descriptors, then single-segment content sizes, then
+/// window descriptor + content size together
 fn header_variant(h: u64, seed: u64) -> (Vec<u8>, u64, bool) {
     let mut f = MAGIC.to_le_bytes().to_vec();
+    let n_fcs = fcs_values(seed).len() as u64;
+    if h >= 256 + n_fcs {
+        let k = h - 256 - n_fcs;
+        let wd = BOTH_WD[(k % 8) as usize];
+        let v = BOTH_FCS[(k / 8 % 8) as usize];
+        let (flag, bytes): (u8, Vec<u8>) = if v <= 65_791 {
+            (1, ((v - 256) as u16).to_le_bytes().to_vec())
+        } else if v <= u32::MAX as u64 {
+            (2, (v as u32).to_le_bytes().to_vec())
+        } else {
+            (3, v.to_le_bytes().to_vec())
+        };
+        f.push(flag << 6);
+        f.push(wd);
+        f.extend_from_slice(&bytes);
+        f.extend_from_slice(&[0x09, 0, 0, 0x42]);
+        // the declared WINDOW is what the limit is about; the content size does not shrink it
+        return (f, window_from_descriptor(wd), false);
+    }
     if h < 256 {
         f.push(0x00);
         f.push(h as u8);
@@ -239,11 +265,11 @@ fn item(idx: u64, ctx: &mut CaseCtx, seed: u64) -> CaseResult {
 }
 
 pub fn run(eng: &Engine) {
-    eng.set_rule("complete product of header variant (all 256 window descriptors + single-segment content sizes in every field width) x 14 limit classes (w-1, w, w+1, 0, 1023, 1024, default+-1, format maximum+-1, u64::MAX, random) x 2 orders (limit set right before the frame / once on the new decoder, before the history) x 4 history positions x 11 front ends (reset, init, decode_all, decode_all_to_vec, decode_from_to, the three StreamingDecoder constructors, and the frame as second frame / after a skippable frame inside one multi-frame call); oracle: accept iff window <= min(limit, format maximum); non-trivial = |window - effective limit| <= 1 or a reuse position; cases distinct by index");
+    eng.set_rule("complete product of header variant (all 256 window descriptors + single-segment content sizes in every field width + 64 headers carrying a window descriptor AND a content size) x 14 limit classes (w-1, w, w+1, 0, 1023, 1024, default+-1, format maximum+-1, u64::MAX, random) x 2 orders (limit set right before the frame / once on the new decoder, before the history) x 4 history positions x 11 front ends (reset, init, decode_all, decode_all_to_vec, decode_from_to, the three StreamingDecoder constructors, and the frame as second frame / after a skippable frame inside one multi-frame call); oracle: accept iff window <= min(limit, format maximum); non-trivial = |window - effective limit| <= 1 or a reuse position; cases distinct by index");
     eng.assume("acceptance on paths that reserve the whole window eagerly (reset of a used decoder) is executed only for windows <= 64 MiB; excluded (header, path) pairs are counted under features excluded:*; rejection is executed everywhere");
     eng.assume("the allocation clause is checked for windows >= 64 KiB (below that a window-sized request cannot be told from ordinary scratch)");
     let seed = eng.seed;
-    let headers = 256 + fcs_values(seed).len() as u64;
+    let headers = 256 + fcs_values(seed).len() as u64 + N_BOTH;
     let total = headers * N_ORDER * N_LIMITS * N_POS * N_FRONT;
     eng.run_enumerated("window_limit_product", "header variant x limit class x position x front end", total, 512, move |i, c| item(i, c, seed));
     // single-segment sizes and random limits are sampled, the descriptor product is complete
